@@ -114,7 +114,7 @@ def parse_obs(l):
         b = bytes(l[p[0]:p[0] + n])
         p[0] += n
         return b
-    d = dict(accept=True, version=take(), tree=[])
+    d = dict(accept=True, version=take(), ntags=take(), tree=[])
     for _ in range(take()):
         o = dict(addr=take(), kind=take(), cls=take(), size=take(), bits=take(), space=take(), layout=take())
         o["dims"] = [take() for _ in range(take())]
@@ -337,11 +337,16 @@ def run_oracle(ctx, files, outs, known_idx):
     stats = collections.Counter()
     disc = []
     naccept = ncompared = 0
+    tagviol = []
     for (rel, data, rels), w in zip(sel, cqs):
         if not w["accept"]:
             reasons[reason_name(w["reason"])] += 1
             continue
         naccept += 1
+        if w["ntags"]:
+            # not proved in Props/C06Walk.v (partial): the strict walk returns no deviation tag; checked on every accepted file
+            tagviol.append(dict(what="the strict walk of %s returns %d deviation tags" % (rel, w["ntags"]), case=dict(file=rel), nofail=True,
+                                correspondence="Spec.Walk.walk wstrict returns an empty tag list (sdev / xdev / dev reject under wstrict)"))
         for r in rels:
             o = outs.get(os.path.join(vlib.REPO, r))
             if o is None or "dump" not in o or (o.get("dump") or {}).get("openerr") or o.get("panic") or (o["dump"] or {}).get("panic"):
@@ -349,7 +354,7 @@ def run_oracle(ctx, files, outs, known_idx):
                 continue
             ncompared += 1
             compare_file(r, w, o, disc, stats)
-    viol, by_rc = [], collections.Counter()
+    viol, by_rc = tagviol[:3], collections.Counter()
     seen = set()
     new = []
     for d in disc:
